@@ -204,7 +204,7 @@ Qed.
 (** * Read loop *)
 Section Loop.
   Variable reg : byte -> bool.
-  Variable jok jnull : byte -> bytes -> bool.
+  Variable jok : byte -> bytes -> bool.
 
   Definition fs_good (m : byte * bytes) : Prop :=
     reg (fst m) = true /\ blen (snd m) <= max_len /\ jok (fst m) (snd m) = true.
@@ -322,6 +322,8 @@ Section Loop.
           rewrite (frame_roundtrip reg t b rest Hr Hl) in E. injection E as <- _ _. cbn in Ej. congruence. }
         repeat split; [constructor|assumption|now apply fs_not_good_end|apply Hend].
   Qed.
+
+  Variable jnull : byte -> bytes -> bool.
 
   (* any decode error ends THAT session only *)
   Theorem fs_stream_step_confined st conn rid s st' out :
